@@ -145,8 +145,7 @@ func (x Expr) GetNodes(n gen.Node) (results []gen.Node) {
 				switch tv := prev.(type) {
 				case gen.Object:
 					// Put prev back and slide fi.
-					stack[len(stack)-1] = prev
-					stack = append(stack, di|descentFlag)
+					stack = append(stack, prev, di|descentFlag)
 					if fi == index(len(x))-1 { // last one
 						for _, v = range tv {
 							results = append(results, v)
@@ -161,8 +160,7 @@ func (x Expr) GetNodes(n gen.Node) (results []gen.Node) {
 					}
 				case gen.Array:
 					// Put prev back and slide fi.
-					stack[len(stack)-1] = prev
-					stack = append(stack, di|descentFlag)
+					stack = append(stack, prev, di|descentFlag)
 					if fi == index(len(x))-1 { // last one
 						for _, v = range tv {
 							results = append(results, v)
@@ -451,8 +449,7 @@ func (x Expr) FirstNode(n gen.Node) (result gen.Node) {
 				switch tv := prev.(type) {
 				case gen.Object:
 					// Put prev back and slide fi.
-					stack[len(stack)-1] = prev
-					stack = append(stack, di|descentFlag)
+					stack = append(stack, prev, di|descentFlag)
 					if fi == index(len(x))-1 { // last one
 						for _, v = range tv {
 							return v
@@ -467,8 +464,7 @@ func (x Expr) FirstNode(n gen.Node) (result gen.Node) {
 					}
 				case gen.Array:
 					// Put prev back and slide fi.
-					stack[len(stack)-1] = prev
-					stack = append(stack, di|descentFlag)
+					stack = append(stack, prev, di|descentFlag)
 					if fi == index(len(x))-1 { // last one
 						if 0 < len(tv) {
 							return tv[0]
